@@ -1,7 +1,7 @@
 import MakoModel.Props.C16
 #print axioms MakoModel.C16.mutex_discipline
+#print axioms MakoModel.C16.mutex_released_on_every_path
 #print axioms MakoModel.C16.no_deadlock
-#print axioms MakoModel.C16.pairwise_id_unique
 #print axioms MakoModel.C16.returns_complete
 #print axioms MakoModel.C16.built_by_construction_only
 #print axioms MakoModel.C16.returns_fresh_partial
